@@ -227,6 +227,11 @@ func renderValue1(v ssa.Value, d int) string {
 		return x.Name()
 	case *ssa.UnOp:
 		if x.Op == token.MUL {
+			// a field of a struct literal that is read back before the literal is handed on
+			// (pkg := &T{Name: n}; if pkg.Name == "") is the value it was built with
+			if sv := literalFieldValue(x); sv != nil {
+				return renderValue(sv, d)
+			}
 			return renderValue(x.X, d) // a load does not count as a level: spilled and unspilled values render alike
 		}
 		return x.Op.String() + renderValue(x.X, d+1)
@@ -251,8 +256,16 @@ func renderValue1(v ssa.Value, d int) string {
 		}
 		return renderValue(x.X, d+1) + "[" + renderValue(x.Index, d+1) + "]"
 	case *ssa.Lookup:
+		if set, ok := constSetOfLookup(x, false); ok {
+			return "in{" + set + "}(" + renderValue(x.Index, d+1) + ")"
+		}
 		return renderValue(x.X, d+1) + "[" + renderValue(x.Index, d+1) + "]"
 	case *ssa.Extract:
+		if lk, ok := x.Tuple.(*ssa.Lookup); ok && x.Index == 1 {
+			if set, ok := constSetOfLookup(lk, true); ok {
+				return "in{" + set + "}(" + renderValue(lk.Index, d+1) + ")"
+			}
+		}
 		if c, ok := x.Tuple.(*ssa.Call); ok {
 			if cal, v := unfoldResult(c, x.Index); v != nil {
 				renderEnv = append(renderEnv, renderFrame{cal, c.Call.Args})
@@ -271,6 +284,13 @@ func renderValue1(v ssa.Value, d int) string {
 			return out
 		}
 		rf := refOf(x.Common())
+		// membership in a fixed set of constants has one form, whether the set is written as a list
+		// given to slices.Contains or as a package-level set-like map that is looked up
+		if rf.is("slices", "", "Contains") && len(x.Call.Args) == 2 {
+			if set, ok := constSetOfList(x.Call.Args[0]); ok {
+				return "in{" + set + "}(" + renderValue(x.Call.Args[1], d+1) + ")"
+			}
+		}
 		var as []string
 		if x.Call.IsInvoke() {
 			as = append(as, renderValue(x.Call.Value, d+1))
@@ -333,9 +353,181 @@ func renderValue1(v ssa.Value, d int) string {
 	case *ssa.Range:
 		return "range(" + renderValue(x.X, d+1) + ")"
 	case *ssa.TypeAssert:
+		// asserting back the very type a value was boxed from is that value
+		if mi, ok := x.X.(*ssa.MakeInterface); ok && types.Identical(mi.X.Type(), x.AssertedType) {
+			return renderValue(mi.X, d)
+		}
+		if ld, ok := x.X.(*ssa.UnOp); ok && ld.Op == token.MUL {
+			if sv := literalFieldValue(ld); sv != nil {
+				if mi, ok := sv.(*ssa.MakeInterface); ok && types.Identical(mi.X.Type(), x.AssertedType) {
+					return renderValue(mi.X, d)
+				}
+			}
+		}
 		return renderValue(x.X, d+1) + ".(" + typeShort(x.AssertedType) + ")"
 	}
 	return fmt.Sprintf("%T", v)
+}
+
+// constSetOfList: the sorted constants of a slice that is a literal of constants (written in place
+// or held by a package-level variable nothing else writes).
+func constSetOfList(v ssa.Value) (string, bool) {
+	els := flattenVariadic([]ssa.Value{v})
+	if len(els) == 0 || (len(els) == 1 && els[0] == v) {
+		return "", false
+	}
+	var ks []string
+	for _, e := range els {
+		c, ok := e.(*ssa.Const)
+		if !ok {
+			return "", false
+		}
+		ks = append(ks, c.String())
+	}
+	sort.Strings(ks)
+	return strings.Join(ks, ","), true
+}
+
+// constSetOfLookup: lk looks a key up in a package-level map literal with constant keys that nothing
+// else writes, used as a set — its comma-ok result, or its plain result when every value is true.
+var constSetCache = map[*ssa.Global][2]string{}
+
+func constSetOfLookup(lk *ssa.Lookup, commaOk bool) (string, bool) {
+	ld, ok := stripChangeType(lk.X).(*ssa.UnOp)
+	if !ok || ld.Op != token.MUL || activeProg == nil {
+		return "", false
+	}
+	g, ok := ld.X.(*ssa.Global)
+	if !ok || g.Pkg == nil || g.Pkg.Prog != activeProg.SSA {
+		return "", false
+	}
+	if _, isMap := lk.X.Type().Underlying().(*types.Map); !isMap {
+		return "", false
+	}
+	c, seen := constSetCache[g]
+	if !seen {
+		rows, ok := mapRows(activeProg, nil, ld)
+		if ok && len(rows) > 0 {
+			var ks []string
+			allTrue := true
+			for _, r := range rows {
+				k, isC := r.Key.(*ssa.Const)
+				if !isC {
+					ks = nil
+					break
+				}
+				ks = append(ks, k.String())
+				if b, isB := constBool(r.Val); !isB || !b {
+					allTrue = false
+				}
+			}
+			if ks != nil {
+				sort.Strings(ks)
+				c[1] = strings.Join(ks, ",")
+				if allTrue {
+					c[0] = c[1]
+				}
+			}
+		}
+		constSetCache[g] = c
+	}
+	i := 0
+	if commaOk {
+		i = 1
+	}
+	return c[i], c[i] != ""
+}
+
+// literalFieldValue: ld loads field f of a struct local (a composite literal) whose field f is
+// stored exactly once, and nothing else that could write it (the literal being passed on, stored
+// or captured, another address of the field) can execute before the load.
+func literalFieldValue(ld *ssa.UnOp) ssa.Value {
+	fa, ok := ld.X.(*ssa.FieldAddr)
+	if !ok {
+		return nil
+	}
+	al, ok := fa.X.(*ssa.Alloc)
+	if !ok {
+		return nil
+	}
+	var stores []*ssa.Store
+	var escapes []ssa.Instruction
+	for _, ref := range *al.Referrers() {
+		switch x := ref.(type) {
+		case *ssa.FieldAddr:
+			if x.Field != fa.Field {
+				continue
+			}
+			for _, r2 := range *x.Referrers() {
+				switch y := r2.(type) {
+				case *ssa.Store:
+					if y.Addr == ssa.Value(x) {
+						stores = append(stores, y)
+						continue
+					}
+					escapes = append(escapes, y)
+				case *ssa.UnOp:
+					if y.Op != token.MUL {
+						escapes = append(escapes, y)
+					}
+				case *ssa.DebugRef:
+				default:
+					escapes = append(escapes, r2)
+				}
+			}
+		case *ssa.DebugRef:
+		case *ssa.UnOp:
+			if x.Op == token.MUL {
+				continue // a copy of the whole struct reads it
+			}
+			escapes = append(escapes, x)
+		case *ssa.Store:
+			if x.Addr == ssa.Value(al) {
+				return nil // the whole struct is overwritten
+			}
+			escapes = append(escapes, x)
+		default:
+			escapes = append(escapes, ref)
+		}
+	}
+	isLd := func(in ssa.Instruction) bool { return in == ssa.Instruction(ld) }
+	isAl := func(in ssa.Instruction) bool { return in == ssa.Instruction(al) }
+	// can e execute before the load, for the same allocation?
+	before := func(e ssa.Instruction) bool {
+		if e.Block() == ld.Block() {
+			for _, in := range e.Block().Instrs {
+				if in == ssa.Instruction(ld) {
+					break
+				}
+				if in == e {
+					return true
+				}
+			}
+		}
+		return findPath(pointOf(e), isLd, isAl, nil) != nil
+	}
+	// the one store that can come before the load (it then comes before it on every path: it
+	// must dominate the load), every other store of the field only after it
+	var sv ssa.Value
+	n := 0
+	for _, st := range stores {
+		if !before(st) {
+			continue
+		}
+		n++
+		if st.Block() == ld.Block() || st.Block().Dominates(ld.Block()) {
+			sv = st.Val
+		}
+	}
+	if n != 1 || sv == nil {
+		return nil
+	}
+	for _, e := range escapes {
+		if before(e) {
+			return nil
+		}
+	}
+	return sv
 }
 
 // unaliasOwn looks through the type aliases the normalisation (inline.go) introduces.
@@ -480,7 +672,13 @@ func loopSkips(fn *ssa.Function, progress func(ssa.Instruction) bool) []string {
 			if !c1 {
 				k = 1
 			}
-			_ = ifi
+			// a constant condition whose skipping edge is never taken decides nothing
+			// (`for eof := false; !eof;` with eof never assigned is `for {`)
+			if inner, flip := stripNot(ifi.Cond); true {
+				if c, isC := constBool(inner); isC && ((k == 0) != (c != flip)) {
+					continue
+				}
+			}
 			out = append(out, rangeEnd(bb, renderSkipDecision(bb, k)))
 		}
 	}
@@ -1007,6 +1205,9 @@ func c03Omissions(p *Prog, r *Report, rule string, fns []*ssa.Function) {
 			}
 		}
 		for s, n := range wantN {
+			if strings.HasPrefix(s, "range-end: ") {
+				continue // see frozenCompare
+			}
 			if got[s] < n {
 				r.Fail(rule, key+":missing:"+short(s, 120), p.Pos(fn.Pos()), "the audited omission/exit '"+s+"' is gone or was rewritten: records the format marks as not installed (or malformed/terminating records) are no longer handled the audited way")
 			}
